@@ -146,6 +146,21 @@ CHECKS["C14"] = dict(
          "bounded-exhaustive, not all polygons.",
     design="4 C14")
 
+CHECKS["C05"] = dict(
+    level="model_checking",
+    technique="TLA+ spec Region.tla (exact winding-number membership on integer sample points, "
+              "guard band by exact squared distances) ; TLC-enumerated operand pairs run through "
+              "boolean(); results validated by TLC",
+    text="For all ordered pairs of 20 operand groups x 4 operations (+ merges) x scalings, TLC "
+         "checks on 196 exact sample points per result that membership in the output equals the "
+         "set operation of the memberships in the operands (skipping only points within 1.5 grid "
+         "units of a non-Manhattan operand edge), that at most one output polygon covers a point "
+         "with winding +-1 (holes are zero-width slits), and the area identities (exact for "
+         "Manhattan operands, within perimeter x grid otherwise).",
+    note="Trusted: TLC, Base/Region arithmetic. Clipper itself is vendored; the binding is on "
+         "clipper_tools.cpp. Operands from a palette on a 12x12 grid, not arbitrary polygons.",
+    design="4 C05")
+
 NOT_YET = {}
 
 
